@@ -12,14 +12,14 @@
    (BindObsTrace).
 """
 import random
+import re
 
 from .. import tlc
 
 TRACE = "BindObsTrace"
+_RE_HIST = re.compile(r'<<"(\w+)", (-?\d+), (-?\d+), (-?\d+), (-?\d+), (-?\d+)>>')
 TYPES = ["map", "flat_map", "retry", "poll", "throttle", "timeout", "cos"]
 THREAD_TYPES = ("retry", "poll", "throttle", "timeout")
-import re
-_RE_HIST = re.compile(r'<<"(\w+)", (-?\d+), (-?\d+), (-?\d+), (-?\d+), (-?\d+)>>')
 
 
 def exp_name(p, k):
@@ -115,7 +115,9 @@ def run(ck):
                                    "C19_NameInThreadNames (%s / %s)" % (r["violated"], last))
     # 2. spec -> code: programs drawn by TLC, executed in all forms
     behs = tlc.simulate_behaviours("Bind", "Bind.sim.cfg", 150 if quick else 3000, 12, ck.seed + 1, timeout=900)
-    ck.replay_behaviours(behs, converter(rng), project, TRACE)
+    pairs = ck.replay_behaviours(behs, converter(rng), project, TRACE)
+    ck.notes["replayed_programs_with_layer_inheriting_a_name_after_bind"] = sum(
+        1 for (t, _r), _v in pairs if t["facts"]["after_bind_layer"])
     # 3. code -> spec: random programs
     tasks = []
     for i in range(450 if quick else 10000):
@@ -123,7 +125,12 @@ def run(ck):
         strat = ["random", rng.randrange(10 ** 9), 0.6] if i % 4 else ["pct", rng.randrange(10 ** 9), 3, 400]
         tasks.append({"scen": "bind", "params": p, "strat": strat, "gran": "line" if i % 6 == 0 else "sync",
                       "facts": facts_of(p)})
-    ck.run_and_validate(tasks, TRACE, nontrivial=nontrivial)
+    pairs2 = ck.run_and_validate(tasks, TRACE, nontrivial=nontrivial)
+    # a crash of a harness thread (main / inner-future helper) is a defect of this check, never a verdict
+    crashed = [(t["params"], r["thread_excs"]) for (t, r), _v in list(pairs) + list(pairs2)
+               if any(n.startswith(("main", "inner")) for n, _e in (r.get("thread_excs") or ()))]
+    if crashed:
+        ck.machinery_errors.append("harness threads crashed in %d executions, e.g. %s" % (len(crashed), crashed[:2]))
     ck.notes["rule"] = ("one evaluation = one generated program (chain, bind position, callable kind, bind/flat_bind, "
                         "names, submissions) executed on the real library in all of its forms under the controlled "
                         "scheduler and validated by TLC against BindObs; distinct = distinct (program, projected "
